@@ -273,26 +273,26 @@ theorem C03_paused_is_silent (fuel : Nat) (s s' : StaticSound ℝ) (len : Nat) (
 /-- **forwards**: a playing sound without a loop region, play head at `p`, reaches Stopped after
     exactly `max (n − p) 1 + 4` position steps (the remaining frames, then the 4-frame window drains)
     — and not earlier. -/
-theorem C03_finite_sound_stops_forward (s : StaticSound ℝ) (hs : s.SliceOk) (hp : s.transport.playing = true)
+theorem C03_finite_sound_stops_forward (s : StaticSound ℝ) (hp : s.transport.playing = true)
     (hl : s.transport.loopRegion = none) (hbw : s.isPlayingBackwards = false) :
     (∃ s', StaticSound.updN (max (s.nFrames - s.transport.position) 1 + 4) s = .ok s' ∧ s'.IsStopped)
       ∧ ∀ j, j < max (s.nFrames - s.transport.position) 1 + 4 →
           ∃ sj, StaticSound.updN j s = .ok sj ∧ sj.core = s.core :=
-  StaticSound.forward_ends _ s hs hp hl hbw rfl
+  StaticSound.forward_ends _ s hp hl hbw rfl
 
 /-- **in reverse** (the 0.9.4 "reverse playback never finishes" shape): play head at `p`, Stopped
     after exactly `p + 1 + 4` position steps. -/
-theorem C03_finite_sound_stops_backward (s : StaticSound ℝ) (hs : s.SliceOk) (hp : s.transport.playing = true)
+theorem C03_finite_sound_stops_backward (s : StaticSound ℝ) (hp : s.transport.playing = true)
     (hl : s.transport.loopRegion = none) (hbw : s.isPlayingBackwards = true) :
     (∃ s', StaticSound.updN (s.transport.position + 1 + 4) s = .ok s' ∧ s'.IsStopped)
       ∧ ∀ j, j < s.transport.position + 1 + 4 → ∃ sj, StaticSound.updN j s = .ok sj ∧ sj.core = s.core :=
-  StaticSound.backward_ends _ s hs hp hl hbw rfl
+  StaticSound.backward_ends _ s hp hl hbw rfl
 
 /-- **… within an explicit number of output frames**: at a constant non-zero rate `r` every output
     frame advances the position by `c = sr·|r|·dt > 0`, so after any `k` frames of a `process` call with
     `k·c ≥ max (n − p) 1 + 4` the sound is Stopped (forwards; `p + 1 + 4` in reverse, second part). -/
 theorem C03_finite_sound_stops_in_frames (fuel : Nat) (dt r : ℝ) (len k i : Nat) (s s' : StaticSound ℝ)
-    (outs : List (Frame ℝ)) (hs : s.SliceOk) (hp : s.transport.playing = true) (hl : s.transport.loopRegion = none)
+    (outs : List (Frame ℝ)) (hp : s.transport.playing = true) (hl : s.transport.loopRegion = none)
     (hr : s.playbackRate.Rests r) (hdt : 0 ≤ dt) (h0 : 0 ≤ s.frac) (h1 : s.frac < 1)
     (hfuel : ⌊s.frac + k * ((s.sampleRate : ℝ) * |r| * dt)⌋₊ < fuel)
     (h : StaticSound.renderLoop fuel dt len k i s = .ok (s', outs)) :
@@ -303,11 +303,11 @@ theorem C03_finite_sound_stops_in_frames (fuel : Nat) (dt r : ℝ) (len k i : Na
   have hc : 0 ≤ (s.sampleRate : ℝ) * |r| * dt := by positivity
   constructor
   · intro hbw hk
-    obtain ⟨⟨sN, hN, hst⟩, _⟩ := StaticSound.forward_ends _ s hs hp hl hbw rfl
+    obtain ⟨⟨sN, hN, hst⟩, _⟩ := StaticSound.forward_ends _ s hp hl hbw rfl
     exact StaticSound.renderLoop_reaches_stopped fuel dt len _ hc k i _ s s' sN outs
       (fun t => StaticSound.fracStep_rests s r t dt hr) h0 h1 hfuel hN hst hk h
   · intro hbw hk
-    obtain ⟨⟨sN, hN, hst⟩, _⟩ := StaticSound.backward_ends _ s hs hp hl hbw rfl
+    obtain ⟨⟨sN, hN, hst⟩, _⟩ := StaticSound.backward_ends _ s hp hl hbw rfl
     exact StaticSound.renderLoop_reaches_stopped fuel dt len _ hc k i _ s s' sN outs
       (fun t => StaticSound.fracStep_rests s r t dt hr) h0 h1 hfuel hN hst hk h
 
